@@ -535,7 +535,7 @@ fn operation_info(p: &Program, path: &str) -> Option<(usize, usize)> {
     }
 }
 
-fn victim_prelude<'a>(p: &'a mut Program, path: &str) -> Option<&'a mut Prelude> {
+pub fn victim_prelude<'a>(p: &'a mut Program, path: &str) -> Option<&'a mut Prelude> {
     let segs: Vec<&str> = path.split('/').collect();
     let fi: usize = segs[0][1..].parse().ok()?;
     let di: usize = segs[1][1..].parse().ok()?;
